@@ -162,6 +162,7 @@ func (x *vc) execBlock(fr *frame, st *state, b *ssa.BasicBlock) bool {
 			c := x.value(fr, st, in.Cond)
 			if fr.top && x.topFC != nil && len(x.topFC.atifs) > 0 && c.T != "" {
 				if text, ok := fr.exprText[in.Cond]; ok {
+					text = baselineText(fr.fn, text) // renamed locals keep the names the clause was written with (alias.go)
 					if x.atifCount == nil {
 						x.atifCount = map[string]int{}
 					}
